@@ -46,6 +46,8 @@ fn peer_id(i: usize, r: &mut Rng) -> [u8; 20] {
 /// Runs one lookup; `items[i]` is delivered i-th. Returns the API's answer.
 pub fn run_lookup(r: &mut Rng, items: &[(i64, Vec<u8>)], use_async: bool) -> Result<Option<(i64, Vec<u8>)>, String> {
     simclock::set_ms(1000);
+    // the threaded Dht waits in its socket reads
+    simclock::NONBLOCKING_SOCKETS.store(false, std::sync::atomic::Ordering::SeqCst);
     let sk = SigningKey::from_bytes(&{
         let mut b = [0u8; 32];
         for x in b.iter_mut() {
